@@ -363,6 +363,7 @@ inductive Cmd (V : Type)
   | measure (modes : List Nat) (outcomes : List V)   -- a Measurement with scripted outcomes
   | prepare (mode : Nat)                              -- (re-)preparation: does not touch RegRef.val
   | use (e : Expr)                                    -- an operation with parameter `e` is applied
+  | useArr (es : List Expr)                           -- … with an array-valued parameter (object array of expressions)
 deriving Repr
 
 abbrev Regs (V : Type) := Nat → Option V
@@ -394,6 +395,11 @@ def runCmds [ValOps V] (free : String → Option V) (r : Regs V) : List (Cmd V) 
   | .use e :: rest =>
     match eval ⟨free, r⟩ e with
     | .ok v => let o := runCmds free r rest; ⟨v :: o.trace, o.fin⟩
+    | .error err => ⟨[], .error err⟩
+  | .useArr es :: rest =>
+    -- `par_evaluate` evaluates every element before the operation is applied: all or nothing
+    match es.mapM (eval ⟨free, r⟩) with
+    | .ok vs => let o := runCmds free r rest; ⟨vs ++ o.trace, o.fin⟩
     | .error err => ⟨[], .error err⟩
 
 /-- engine state: `started` = a program has been run since construction / `reset` (`run_progs`
